@@ -156,7 +156,7 @@ impl<const N: usize> UdpAssociateContext<N> {
                 exists|fs: Seq<PacketWindowFilter>, rs: Seq<bool>, k: int| k <= vlog.from_client.len() <= k + 1 && #[trigger] assoc_hist(fs, vlog.from_client.take(k), rs)
                     && assoc_payloads(vlog.to_target) == assoc_accepted(vlog.from_client.take(k), rs),
         {
-            proof { dropping = false; }
+            proof { dropping = false; assert(vlog.from_client.take(vlog.from_client.len() as int) =~= vlog.from_client); }
             match verif_select(2) {
                 0 => { let peer_msg = self.outbound.recv_from(&mut buf, Tracked(vlog)); {
                     match peer_msg {
@@ -166,7 +166,6 @@ impl<const N: usize> UdpAssociateContext<N> {
                                 Some(id) => id,
                                 None => {
                                     /*R2*/
-                                    proof { assert(vlog.from_client.take(vlog.from_client.len() as int) =~= vlog.from_client); }
                                     break;
                                 }
                             };
@@ -183,7 +182,6 @@ impl<const N: usize> UdpAssociateContext<N> {
                         },
                         Err(e) => {
                             /*R2*/
-                            proof { assert(vlog.from_client.take(vlog.from_client.len() as int) =~= vlog.from_client); }
                             break;
                         }
                     }
@@ -228,7 +226,6 @@ impl<const N: usize> UdpAssociateContext<N> {
                         }
                         None => {
                             /*R2*/
-                            proof { assert(vlog.from_client.take(vlog.from_client.len() as int) =~= vlog.from_client); }
                             break;
                         }
                     }
